@@ -35,6 +35,7 @@ func genCaseC06(t *rapid.T) *Case {
 	d, vars := GenDoc(t, s, p, false)
 	c := &Case{Schema: s, Graph: g, Doc: d, Vars: vars, Layout: GenLayout(t), Echo: p.Args, ListSeed: rapid.IntRange(0, 1<<20).Draw(t, "listSeed")}
 	c.Assign, c.AnyInstalled = GenAssign(t, g, strategy)
+	c.Warm = GenWarm(t, s, p)
 	c.Op = d.Ops[0].Name
 	return c
 }
